@@ -793,7 +793,15 @@ class COOSubjac(SparseSubjac):
     def _set_coo_col(self, icol, column, data, row, col, uncovered_threshold=None):
         col_match = col == icol
         row_inds = row[col_match]
-        data[col_match] = column[row_inds]
+        vals = column[row_inds]
+        if row_inds.size > 1:
+            # duplicate entries are summed in the dense view, so only the first one gets the value
+            _, first = np.unique(row_inds, return_index=True)
+            if first.size < row_inds.size:
+                keep = np.zeros(row_inds.size, dtype=bool)
+                keep[first] = True
+                vals = np.where(keep, vals, 0.)
+        data[col_match] = vals
 
         if uncovered_threshold is not None:  # do a sparsity check
             arr = column.copy()
